@@ -29,6 +29,19 @@ pub assume_specification [<crate::uri::UriBuf as std::ops::Deref>::deref] (s: &c
 pub assume_specification [<crate::iri::IriBuf as std::ops::Deref>::deref] (s: &crate::iri::IriBuf) -> (r: &<crate::iri::IriBuf as std::ops::Deref>::Target)
     ensures bytes_of(r) == bytes_of(s);
 
+pub assume_specification [crate::iri::IriBuf::as_str] (s: &crate::iri::IriBuf) -> (r: &str)
+    ensures bytes_of(r) == bytes_of(s);
+pub assume_specification [crate::iri::IriRefBuf::as_str] (s: &crate::iri::IriRefBuf) -> (r: &str)
+    ensures bytes_of(r) == bytes_of(s);
+pub assume_specification [crate::iri::IriBuf::as_bytes] (s: &crate::iri::IriBuf) -> (r: &[u8])
+    ensures r@ == bytes_of(s);
+pub assume_specification [crate::iri::IriRefBuf::as_bytes] (s: &crate::iri::IriRefBuf) -> (r: &[u8])
+    ensures r@ == bytes_of(s);
+pub assume_specification [crate::uri::UriBuf::as_bytes] (s: &crate::uri::UriBuf) -> (r: &[u8])
+    ensures r@ == bytes_of(s);
+pub assume_specification [crate::uri::UriRefBuf::as_bytes] (s: &crate::uri::UriRefBuf) -> (r: &[u8])
+    ensures r@ == bytes_of(s);
+
 // Authority::parts (both families): typed sub-slices at the ranges of AuthorityImpl::parts (proved, C03)
 pub assume_specification [crate::uri::Authority::parts] (s: &crate::uri::Authority) -> (r: crate::uri::AuthorityParts<'_>)
     ensures auth_shape(bytes_of(s), 0) ==> opt_text(r.user_info) == au_ui(bytes_of(s)) && bytes_of(r.host) == au_host(bytes_of(s)) && opt_text(r.port) == au_port(bytes_of(s));
